@@ -5,6 +5,8 @@ import (
 	"go/types"
 
 	"golang.org/x/tools/go/ssa"
+
+	"manticheck/internal/codec"
 )
 
 // R3: the character set of the name payloads follows the Unicode test.
@@ -32,8 +34,10 @@ func (c *c08) charset1(spec c08Msg, b *c08Built, name string) {
 		return
 	}
 
-	// The test that selects the character set.
-	var test func(cond ssa.Value) (match, whenTrue bool)
+	// The test that selects the character set. A condition may be evaluated in an
+	// inlined helper (activation fr): a bool parameter bound to the caller's test
+	// value, or the mask test itself written on a parameter bound to the flags.
+	var test func(cond ssa.Value, fr *codec.Frame) (match, whenTrue bool)
 	var flagField *types.Var
 	var flagBase ssa.Value
 	negotiate := spec.fn == c08Negotiate.fn
@@ -53,67 +57,38 @@ func (c *c08) charset1(spec c08Msg, b *c08Built, name string) {
 			r.Undecided("R3.charset-flag", name+": character-set test", c.pos(fn.Pos()), "no bool parameter selects the character set")
 			return
 		}
-		test = func(cond ssa.Value) (bool, bool) { return cond == ssa.Value(bp), true }
+		test = func(cond ssa.Value, fr *codec.Frame) (bool, bool) {
+			v, f := codec.Resolve(cond, fr)
+			return f == nil && v == ssa.Value(bp), true
+		}
 	} else {
-		test = func(cond ssa.Value) (bool, bool) {
-			x, set, ok := c08MaskTest(cond, uni)
+		test = func(cond ssa.Value, fr *codec.Frame) (bool, bool) {
+			v, f := codec.Resolve(cond, fr)
+			x, set, ok := c08MaskTest(v, uni)
 			if !ok {
 				return false, false
 			}
-			base, fld, ok := c08FieldLoad(x)
-			if !ok || fld.Name() != "NegotiateFlags" || len(fn.Params) == 0 || base != ssa.Value(fn.Params[0]) {
+			xv, xf := codec.Resolve(c08Strip(x), f)
+			base, fld, ok := c08FieldLoad(xv)
+			if !ok || xf != nil || fld.Name() != "NegotiateFlags" || len(fn.Params) == 0 || base != ssa.Value(fn.Params[0]) {
 				return false, false
 			}
 			flagField, flagBase = fld, base
 			return true, set
 		}
 	}
-	viewT := c08NewBranchView(fn, func(cond ssa.Value) (bool, bool) { m, s := test(cond); return m, s })
-	viewF := c08NewBranchView(fn, func(cond ssa.Value) (bool, bool) { m, s := test(cond); return m, !s })
+	viewT := c08NewBranchView(fn, func(cond ssa.Value) (bool, bool) { m, s := test(cond, nil); return m, s })
+	viewF := c08NewBranchView(fn, func(cond ssa.Value) (bool, bool) { m, s := test(cond, nil); return m, !s })
 
-	// charset-flag
-	{
-		construct := name + ": character-set flag"
-		switch {
-		case viewT.tests == 0:
-			if negotiate {
-				r.Fail("R3.charset-flag", construct, c.pos(fn.Pos()), "no branch tests the useUnicode parameter")
-			} else {
-				r.Fail("R3.charset-flag", construct, c.pos(fn.Pos()), "no branch tests challenge.NegotiateFlags & NTLMSSP_NEGOTIATE_UNICODE: the character set does not follow the negotiated flag")
-			}
-			return
-		case negotiate:
-			if b.flagsVal == nil {
-				r.Undecided("R3.charset-flag", construct, c.pos(fn.Pos()), "NegotiateFlags value not located")
-				break
-			}
-			zt, ot := viewT.bits(b.flagsVal)
-			zf, of := viewF.bits(b.flagsVal)
-			u, o := uni.Uint64(), oem.Uint64()
-			switch {
-			case ot&u == 0 || zt&o == 0:
-				r.Fail("R3.charset-flag", construct, c.pos(fn.Pos()), "when useUnicode is true the emitted NegotiateFlags do not have exactly NTLMSSP_NEGOTIATE_UNICODE set (and NTLMSSP_NEGOTIATE_OEM clear)")
-			case of&o == 0 || zf&u == 0:
-				r.Fail("R3.charset-flag", construct, c.pos(fn.Pos()), "when useUnicode is false the emitted NegotiateFlags do not have exactly NTLMSSP_NEGOTIATE_OEM set (and NTLMSSP_NEGOTIATE_UNICODE clear)")
-			default:
-				r.OK("R3.charset-flag", construct, c.pos(fn.Pos()), fmt.Sprintf("useUnicode ⇒ UNICODE=1, OEM=0; ¬useUnicode ⇒ UNICODE=0, OEM=1 (%d branches decided)", viewT.tests))
-			}
-		default:
-			// the flags echoed are the field that was tested
-			base, fld, ok := c08FieldLoad(b.flagsVal)
-			if !ok || fld != flagField || base != flagBase {
-				r.Fail("R3.charset-flag", construct, c.pos(fn.Pos()), "the NegotiateFlags emitted are not challenge.NegotiateFlags, the word whose UNICODE bit selected the character set")
-			} else {
-				r.OK("R3.charset-flag", construct, c.pos(fn.Pos()), fmt.Sprintf("character set selected by challenge.NegotiateFlags & NTLMSSP_NEGOTIATE_UNICODE (%d branches); the same field is emitted", viewT.tests))
-			}
-		}
-	}
-
-	// charset-name
+	// charset-name: evaluated first (buffered), because the selection may be made
+	// inside a shared encoding helper, whose decided branches count as tests
+	helperTests := 0
+	var emit []func()
 	toUpper := func(f *ssa.Function) bool { return f != nil && f.String() == "strings.ToUpper" }
-	fromParam := func(v ssa.Value, want *ssa.Parameter) bool {
-		for d := 0; d < 6; d++ {
-			if v == ssa.Value(want) {
+	fromParam := func(v ssa.Value, fr *codec.Frame, want *ssa.Parameter) bool {
+		for d := 0; d < 8; d++ {
+			v, fr = codec.Resolve(v, fr)
+			if fr == nil && v == ssa.Value(want) {
 				return true
 			}
 			call, f := c08StaticCall(v)
@@ -124,6 +99,54 @@ func (c *c08) charset1(spec c08Msg, b *c08Built, name string) {
 			return false
 		}
 		return false
+	}
+	// producer: leaf l (in activation fr) on the paths where Unicode is / is not selected
+	var producer func(l ssa.Value, fr *codec.Frame, uniSel bool, want *ssa.Parameter, depth int) (bad string, n int)
+	producer = func(l ssa.Value, fr *codec.Frame, uniSel bool, want *ssa.Parameter, depth int) (string, int) {
+		if k, isK := l.(*ssa.Const); isK && k.Value == nil {
+			return "", 0 // absent name: no bytes
+		}
+		call, f := c08StaticCall(l)
+		switch {
+		case call != nil && f == encode:
+			if !uniSel {
+				return "is produced by utf16.EncodeUTF16LE although the OEM character set is selected", 1
+			}
+			if !fromParam(call.Common().Args[0], fr, want) {
+				return "is EncodeUTF16LE of something other than parameter " + want.Name(), 1
+			}
+			return "", 1
+		case call != nil && f != nil && f.Blocks != nil && c.P.InModule(f) && depth < 2 && f.Signature.Results().Len() == 1:
+			// a shared encoding helper: its returns, on the paths the selection leaves alive
+			fr2 := &codec.Frame{Call: call, Callee: f, Parent: fr}
+			view := c08NewBranchView(f, func(cond ssa.Value) (bool, bool) { m, s := test(cond, fr2); return m, s == uniSel })
+			helperTests += view.tests
+			total := 0
+			for _, b := range f.Blocks {
+				ret, ok := b.Instrs[len(b.Instrs)-1].(*ssa.Return)
+				if !ok || !view.live[b] {
+					continue
+				}
+				for _, l2 := range view.leaves(ret.Results[0]) {
+					bad, n := producer(l2, fr2, uniSel, want, depth+1)
+					if bad != "" {
+						return bad + " (in helper " + f.Name() + ")", n
+					}
+					total += n
+				}
+			}
+			return "", total
+		}
+		if cv, isC := l.(*ssa.Convert); isC && c08IsString(cv.X.Type()) {
+			if uniSel {
+				return "is produced by a []byte(string) conversion although Unicode is selected (must be utf16.EncodeUTF16LE)", 1
+			}
+			if !fromParam(cv.X, fr, want) {
+				return "is []byte of something other than parameter " + want.Name(), 1
+			}
+			return "", 1
+		}
+		return "is produced by " + l.String() + ", neither utf16.EncodeUTF16LE nor a []byte(string) conversion", 1
 	}
 	for _, d := range spec.descs {
 		if d.param < 0 {
@@ -140,45 +163,79 @@ func (c *c08) charset1(spec c08Msg, b *c08Built, name string) {
 			uni   bool
 		}{{"Unicode", viewT, true}, {"OEM", viewF, false}} {
 			construct := fmt.Sprintf("%s: %s payload (%s)", name, d.name, br.label)
-			leaves := br.view.leaves(P)
 			bad, n := "", 0
-			for _, l := range leaves {
-				if k, isK := l.(*ssa.Const); isK && k.Value == nil {
-					continue // absent name: no bytes
-				}
-				n++
-				if call, f := c08StaticCall(l); call != nil && f == encode {
-					if !br.uni {
-						bad = "is produced by utf16.EncodeUTF16LE although the OEM character set is selected"
-					} else if !fromParam(call.Common().Args[0], want) {
-						bad = "is EncodeUTF16LE of something other than parameter " + want.Name()
-					}
-				} else if cv, isC := l.(*ssa.Convert); isC && c08IsString(cv.X.Type()) {
-					if br.uni {
-						bad = "is produced by a []byte(string) conversion although Unicode is selected (must be utf16.EncodeUTF16LE)"
-					} else if !fromParam(cv.X, want) {
-						bad = "is []byte of something other than parameter " + want.Name()
-					}
-				} else {
-					bad = "is produced by " + l.String() + ", neither utf16.EncodeUTF16LE nor a []byte(string) conversion"
-				}
-				if bad != "" {
+			for _, l := range br.view.leaves(P) {
+				b1, n1 := producer(l, nil, br.uni, want, 0)
+				n += n1
+				if b1 != "" {
+					bad = b1
 					break
 				}
 			}
-			switch {
-			case bad != "":
-				r.Fail("R3.charset-name", construct, c.pos(fn.Pos()), "on the "+br.label+" paths the payload "+bad)
-			case n == 0:
-				r.Fail("R3.charset-name", construct, c.pos(fn.Pos()), "on the "+br.label+" paths no encoding of parameter "+want.Name()+" reaches the payload")
-			default:
-				how := "[]byte(string)"
-				if br.uni {
-					how = "utf16.EncodeUTF16LE"
+			br := br
+			emit = append(emit, func() {
+				switch {
+				case bad != "":
+					r.Fail("R3.charset-name", construct, c.pos(fn.Pos()), "on the "+br.label+" paths the payload "+bad)
+				case n == 0:
+					r.Fail("R3.charset-name", construct, c.pos(fn.Pos()), "on the "+br.label+" paths no encoding of parameter "+want.Name()+" reaches the payload")
+				default:
+					how := "[]byte(string)"
+					if br.uni {
+						how = "utf16.EncodeUTF16LE"
+					}
+					r.OK("R3.charset-name", construct, c.pos(fn.Pos()), fmt.Sprintf("every producer on these paths is %s of parameter %s (optionally strings.ToUpper, possibly through a shared helper)", how, want.Name()))
 				}
-				r.OK("R3.charset-name", construct, c.pos(fn.Pos()), fmt.Sprintf("every producer on these paths is %s of parameter %s (optionally strings.ToUpper)", how, want.Name()))
+			})
+		}
+	}
+
+	// charset-flag
+	{
+		construct := name + ": character-set flag"
+		switch {
+		case viewT.tests+helperTests == 0:
+			if negotiate {
+				r.Fail("R3.charset-flag", construct, c.pos(fn.Pos()), "no branch tests the useUnicode parameter")
+			} else {
+				r.Fail("R3.charset-flag", construct, c.pos(fn.Pos()), "no branch tests challenge.NegotiateFlags & NTLMSSP_NEGOTIATE_UNICODE: the character set does not follow the negotiated flag")
+			}
+		case negotiate:
+			if b.flagsVal == nil {
+				r.Undecided("R3.charset-flag", construct, c.pos(fn.Pos()), "NegotiateFlags value not located")
+				break
+			}
+			evT := &c08BitsEval{root: viewT, inModule: c.P.InModule, test: func(cond ssa.Value, fr *codec.Frame) (bool, bool) { m, s := test(cond, fr); return m, s }}
+			evF := &c08BitsEval{root: viewF, inModule: c.P.InModule, test: func(cond ssa.Value, fr *codec.Frame) (bool, bool) { m, s := test(cond, fr); return m, !s }}
+			zt, ot := evT.bits(b.flagsVal, nil, map[ssa.Value]bool{}, 0)
+			zf, of := evF.bits(b.flagsVal, nil, map[ssa.Value]bool{}, 0)
+			for _, ev := range []*c08BitsEval{evT} {
+				for _, hv := range ev.views {
+					helperTests += hv.tests
+				}
+			}
+			u, o := uni.Uint64(), oem.Uint64()
+			switch {
+			case ot&u == 0 || zt&o == 0:
+				r.Fail("R3.charset-flag", construct, c.pos(fn.Pos()), "when useUnicode is true the emitted NegotiateFlags do not have exactly NTLMSSP_NEGOTIATE_UNICODE set (and NTLMSSP_NEGOTIATE_OEM clear)")
+			case of&o == 0 || zf&u == 0:
+				r.Fail("R3.charset-flag", construct, c.pos(fn.Pos()), "when useUnicode is false the emitted NegotiateFlags do not have exactly NTLMSSP_NEGOTIATE_OEM set (and NTLMSSP_NEGOTIATE_UNICODE clear)")
+			default:
+				r.OK("R3.charset-flag", construct, c.pos(fn.Pos()), fmt.Sprintf("useUnicode ⇒ UNICODE=1, OEM=0; ¬useUnicode ⇒ UNICODE=0, OEM=1 (%d branches decided)", viewT.tests+helperTests))
+			}
+		default:
+			// the flags echoed are the field that was tested
+			base, fld, ok := c08FieldLoad(b.flagsVal)
+			if !ok || fld != flagField || base != flagBase {
+				r.Fail("R3.charset-flag", construct, c.pos(fn.Pos()), "the NegotiateFlags emitted are not challenge.NegotiateFlags, the word whose UNICODE bit selected the character set")
+			} else {
+				r.OK("R3.charset-flag", construct, c.pos(fn.Pos()), fmt.Sprintf("character set selected by challenge.NegotiateFlags & NTLMSSP_NEGOTIATE_UNICODE (%d branches); the same field is emitted", viewT.tests+helperTests))
 			}
 		}
+	}
+
+	for _, f := range emit {
+		f()
 	}
 }
 
